@@ -2,6 +2,7 @@ package zz_verifsim
 
 import (
 	"bytes"
+	"encoding/binary"
 	bls12 "github.com/kilic/bls12-381"
 	"fmt"
 	"time"
@@ -2122,6 +2123,15 @@ func (a *adversary) onFetch(peer, asker *Node, h hotstuff.Hash) *hotstuff.Block 
 	// a look-alike: same view and parent if the real block is known, different content
 	real := a.w.reg.get(h)
 	var lie *hotstuff.Block
+	if real != nil && mix(a.w.plan.Inner, 0x73686173, a.ctr)%3 == 0 {
+		// a different block with the hash that was asked for: one command fewer, the cut-off bytes moved into the fields
+		// of the embedded certificate (nothing frames the batch inside the hashed bytes)
+		if lie := sameHashFewerCommands(real); lie != nil {
+			a.fired("liefetch-same-hash-fewer-commands")
+			a.lies[h] = lie
+			return lie
+		}
+	}
 	if real != nil && real.QuorumCert().Signature() != nil && mix(a.w.plan.Inner, 0x72656c62, a.ctr)%2 == 0 {
 		// the block that was asked for, in every byte that is signed or hashed - but the certificate it embeds names
 		// other replicas as its signers
@@ -2144,6 +2154,69 @@ func (a *adversary) onFetch(peer, asker *Node, h hotstuff.Hash) *hotstuff.Block 
 	}
 	a.w.reg.add(lie, peer)
 	a.lies[h] = lie
+	return lie
+}
+
+// sameHashFewerCommands builds a block that hashes like real but carries one command fewer: Block.ToBytes puts the
+// marshalled batch and the certificate's bytes next to each other, so the bytes of the last command can be read as the
+// beginning of the certificate (its view, its block hash, the first signature entry). Works for multi-signatures,
+// whose entries are byte strings of any length.
+func sameHashFewerCommands(real *hotstuff.Block) *hotstuff.Block {
+	cmds := real.Commands().GetCommands()
+	qc := real.QuorumCert()
+	if len(cmds) == 0 || qc.Signature() == nil {
+		return nil
+	}
+	full := real.Commands().Marshal()
+	fewer := &clientpb.Batch{Commands: cmds[:len(cmds)-1]}
+	short := fewer.Marshal()
+	if !bytes.HasPrefix(full, short) || len(full) == len(short) {
+		return nil
+	}
+	x := full[len(short):]
+	head := append(append([]byte{}, x...), qc.View().ToBytes()...)
+	bh := qc.BlockHash()
+	head = append(head, bh[:]...) // x, view, hash: the first 40 bytes become the new view and hash, the rest goes to the first entry
+	view2 := hotstuff.View(binary.LittleEndian.Uint64(head[:8]))
+	var h2 hotstuff.Hash
+	copy(h2[:], head[8:40])
+	z := head[40:]
+	var sig2 hotstuff.QuorumSignature
+	switch s := qc.Signature().(type) {
+	case crypto.Multi[*crypto.EDDSASignature]:
+		if len(s) == 0 {
+			return nil
+		}
+		out := make(crypto.Multi[*crypto.EDDSASignature], 0, len(s))
+		for i, e := range s {
+			b := e.ToBytes()
+			if i == 0 {
+				b = append(append([]byte{}, z...), b...)
+			}
+			out = append(out, crypto.RestoreEDDSASignature(b, e.Signer()))
+		}
+		sig2 = out
+	case crypto.Multi[*crypto.ECDSASignature]:
+		if len(s) == 0 {
+			return nil
+		}
+		out := make(crypto.Multi[*crypto.ECDSASignature], 0, len(s))
+		for i, e := range s {
+			b := e.ToBytes()
+			if i == 0 {
+				b = append(append([]byte{}, z...), b...)
+			}
+			out = append(out, crypto.RestoreECDSASignature(b, e.Signer()))
+		}
+		sig2 = out
+	default:
+		return nil
+	}
+	lie := hotstuff.NewBlock(real.Parent(), hotstuff.NewQuorumCert(sig2, view2, h2), fewer, real.View(), real.Proposer())
+	lie.SetTimestamp(real.Timestamp())
+	if lie.Hash() != real.Hash() {
+		return nil
+	}
 	return lie
 }
 
